@@ -96,8 +96,101 @@ Definition eff (m : N) : N := if N.eqb m 0 then default_file_mode else m.
    there, write, Chmod(eff mode), rename onto `to`.  The new file is a new inode (ino 0).  The
    directory creation and the rename are one descent here; they differ only in what is left
    behind when the rename fails, which is not observed (see `check`). *)
-Definition copy_file (m : N) (p : path) (c : str) : dest -> R :=
+Definition copy_file_atomic (m : N) (p : path) (c : str) : dest -> R :=
   upd true p (f_rename (File 0 (eff m) c)).
+
+(* ---------------------------------------------------------------- WriteFile's temporary file - *)
+(* WriteFile does not write `to`: it writes a TEMPORARY SIBLING of `to` and renames it onto `to`.
+   How the sibling is named and opened is TRANSLATED from fs.go (Gen.write_file_temp):
+     None            os.CreateTemp(dir, file): a name nobody has (O_EXCL, retried) -> TempUnique
+     Some (pre, suf) a fixed name pre ++ file ++ suf opened O_CREATE|O_TRUNC       -> TempFixed
+   Proof/C34.v proves: with TempUnique the protocol below IS copy_file_atomic, for every directory,
+   every name and every unused temporary name; with ANY fixed name it is not (a sibling of that name
+   is emptied in place - the same inode - and renamed away). *)
+Inductive temp_policy := TempUnique | TempFixed (pre suf : str).
+
+Definition temp_policy_of (g : option (String.string * String.string)) : temp_policy :=
+  match g with None => TempUnique | Some (p, q) => TempFixed (s p) (s q) end.
+
+Definition temp_policy_now : temp_policy := temp_policy_of write_file_temp.
+
+(* rename(t, _) takes the entry t out of the directory *)
+Fixpoint remove (x : str) (es : list (str * node)) : list (str * node) :=
+  match es with
+  | [] => []
+  | (y, v) :: r => if str_eqb x y then r else (y, v) :: remove x r
+  end.
+
+(* a name no entry of the directory has: longer than all of them together (what the random suffix of
+   os.CreateTemp achieves; the theorems hold for EVERY unused name, this is the one `check` runs) *)
+Definition name_lengths (es : list (str * node)) : nat :=
+  fold_right (fun e a => (length (fst e) + a)%nat) O es.
+
+Definition unique_temp (x : str) (es : list (str * node)) : str :=
+  x ++ repeat 48%N (S (name_lengths es)).
+
+Definition temp_name (pol : temp_policy) (x : str) (es : list (str * node)) : str :=
+  match pol with
+  | TempUnique => unique_temp x es
+  | TempFixed pre suf => pre ++ x ++ suf
+  end.
+
+(* opening the temporary file, d = what has that name *)
+Definition open_temp (pol : temp_policy) (d : dest) : R :=
+  match d with
+  | None => ROk (File 0 384 [])                        (* created: a new inode, 0600 *)
+  | Some n =>
+      match pol with
+      | TempUnique => RErr                             (* O_EXCL: EEXIST *)
+      | TempFixed _ _ =>
+          match n with
+          | File j pm _ => ROk (File j pm [])          (* O_TRUNC: the EXISTING inode j, emptied *)
+          | Dir _ => RErr                              (* EISDIR *)
+          | Link _ => RUnsup                           (* followed *)
+          end
+      end
+  end.
+
+(* WriteFile(content c, to = <the directory es>/x, mode m) with the temporary file named t:
+   open t, io.Copy, Close, Chmod(eff m), renameFile(t, x) *)
+Definition write_in_dir (t : str) (pol : temp_policy) (m : N) (x : str) (c : str) (es : list (str * node)) : R :=
+  match open_temp pol (assoc t es) with
+  | ROk (File j _ _) =>
+      let es1 := set t (File j (eff m) c) es in
+      match f_rename (File j (eff m) c) (assoc x es1) with
+      | ROk v => ROk (Dir (set x v (remove t es1)))
+      | r => r
+      end
+  | ROk _ => RUnsup
+  | r => r
+  end.
+
+(* ... where d is what is at filepath.Dir(to) (MkdirAll creates it) *)
+Definition f_write (pol : temp_policy) (m : N) (x : str) (c : str) (d : dest) : R :=
+  match d with
+  | None => write_in_dir (temp_name pol x []) pol m x c []
+  | Some (Dir es) => write_in_dir (temp_name pol x es) pol m x c es
+  | Some (File _ _ _) => RErr
+  | Some (Link _) => RUnsup
+  end.
+
+Fixpoint split_last (p : path) : option (path * str) :=
+  match p with
+  | [] => None
+  | x :: q => match split_last q with
+              | None => Some ([], x)
+              | Some (q', y) => Some (x :: q', y)
+              end
+  end.
+
+(* CopyFile as it runs.  For p = [] (`to` itself, a single file) the directory is the one that holds
+   `from` and `to`; the model's result is the entry `to` alone, so that case stays atomic (a unique
+   name is unused there as well). *)
+Definition copy_file (m : N) (p : path) (c : str) : dest -> R :=
+  match split_last p with
+  | None => copy_file_atomic m p c
+  | Some (q, x) => upd true q (f_write temp_policy_now m x c)
+  end.
 
 (* ---------------------------------------------------------------- copy.go ------------------- *)
 Record cfg := Cfg {
@@ -428,6 +521,121 @@ Definition prefix_stripped (from cleaned : str) : str := if cleans_first then cl
 
 Definition walk_panics (from cleaned : str) (isdir : bool) : bool :=
   isdir && match rel_of (prefix_stripped from cleaned) cleaned with None => true | Some _ => false end.
+
+(* ---------------------------------------------------------------- walks at the same time ---- *)
+(* A parallel build runs many tree copies at once, each in its own goroutine.  godirwalk reads a
+   directory in TWO steps: getdents INTO a buffer (syscall.ReadDirent(fd, scratchBuffer)), then the
+   names are parsed OUT OF the buffer.  Whose buffer it is, is TRANSLATED from the godirwalk.Options
+   literal in walk.go (Gen.walk_options): no ScratchBuffer option / a make(...) = a buffer of this
+   walk alone; a package-level variable = ONE buffer for every walk of the process.
+
+   A walker = one RecursiveCopyOrLinkFile(from, to = w_b, ...) over a directory, as a task stack. *)
+Local Open Scope string_scope.
+Definition buffer_shared : bool :=
+  existsb (fun o => String.eqb (fst o) "ScratchBuffer" && String.prefix "pkgvar:" (snd o)) walk_options.
+Local Close Scope string_scope.
+
+Inductive task :=
+| TNode (p : path) (n : node)                   (* the callback on one entry *)
+| TFill (p : path) (es : list (str * node))     (* getdents of the open directory es INTO the buffer *)
+| TParse (p : path) (es : list (str * node)).   (* names OUT OF the buffer; each is an entry of the open directory *)
+
+Inductive wstat := Running | Errd | Unsupd.
+
+Record walker := Walker {
+  w_k : cfg;
+  w_b : str;                 (* the destination: an entry of the world *)
+  w_todo : list task;
+  w_buf : list str;          (* its own buffer (used when buffers are not shared) *)
+  w_st : wstat
+}.
+
+(* the callbacks for the names found in the buffer: a name that is not in the directory being read
+   (it came from somebody else's getdents) is ENOENT at the first Lstat/Link/Open *)
+Fixpoint entry_tasks (p : path) (es : list (str * node)) (names : list str) : option (list task) :=
+  match names with
+  | [] => Some []
+  | x :: r =>
+      match assoc x es, entry_tasks p es r with
+      | Some c, Some l => Some (TNode (p ++ [x]) c :: l)
+      | _, _ => None
+      end
+  end.
+
+Definition stop (wk : walker) (st : wstat) : walker := Walker (w_k wk) (w_b wk) [] (w_buf wk) st.
+Definition todo (wk : walker) (l : list task) : walker := Walker (w_k wk) (w_b wk) l (w_buf wk) (w_st wk).
+Definition with_buf (wk : walker) (b : list str) : walker := Walker (w_k wk) (w_b wk) (w_todo wk) b (w_st wk).
+
+(* one step of a walker: rd = what it finds in the buffer, d = what is at its destination;
+   result: the walker, the destination, and what it wrote into the buffer (if it did) *)
+Definition wstep (rd : list str) (wk : walker) (d : dest) : walker * dest * option (list str) :=
+  match w_st wk, w_todo wk with
+  | Running, TNode p n :: r =>
+      match visit (w_k wk) (p, n) d with
+      | ROk d' => (todo wk (match n with Dir es => TFill p es :: r | _ => r end), Some d', None)
+      | RErr => (stop wk Errd, d, None)
+      | RUnsup => (stop wk Unsupd, d, None)
+      end
+  | Running, TFill p es :: r => (todo wk (TParse p es :: r), d, Some (map fst es))
+  | Running, TParse p es :: r =>
+      match entry_tasks p es rd with
+      | Some ts => (todo wk (ts ++ r), d, None)
+      | None => (stop wk Errd, d, None)
+      end
+  | _, _ => (wk, d, None)
+  end.
+
+Definition finished (wk : walker) : bool :=
+  match w_st wk, w_todo wk with
+  | Running, _ :: _ => false
+  | _, _ => true
+  end.
+
+(* a walker on its own *)
+Definition solo_step (s : walker * dest) : walker * dest :=
+  let '(wk', d', bw) := wstep (w_buf (fst s)) (fst s) (snd s) in
+  (match bw with Some b => with_buf wk' b | None => wk' end, d').
+
+Fixpoint solo_iter (n : nat) (s : walker * dest) : walker * dest :=
+  match n with
+  | O => s
+  | S m => solo_iter m (solo_step s)
+  end.
+
+(* many walkers in one world, one shared buffer besides their own ones *)
+Record sys := Sys { s_w : world; s_buf : list str; s_ws : list walker }.
+
+Fixpoint replace_nth (i : nat) (x : walker) (l : list walker) : list walker :=
+  match l, i with
+  | [], _ => []
+  | _ :: r, O => x :: r
+  | y :: r, S j => y :: replace_nth j x r
+  end.
+
+Definition put (b : str) (d : dest) (w : world) : world :=
+  match d with Some n => set b n w | None => w end.
+
+(* walker i takes one step (the scheduler picked its goroutine) *)
+Definition sys_step (shared : bool) (i : nat) (st : sys) : sys :=
+  match nth_error (s_ws st) i with
+  | None => st
+  | Some wk =>
+      let '(wk', d', bw) := wstep (if shared then s_buf st else w_buf wk) wk (assoc (w_b wk) (s_w st)) in
+      let wk'' := if shared then wk' else match bw with Some b => with_buf wk' b | None => wk' end in
+      Sys (put (w_b wk) d' (s_w st))
+          (if shared then match bw with Some b => b | None => s_buf st end else s_buf st)
+          (replace_nth i wk'' (s_ws st))
+  end.
+
+(* a schedule = which goroutine runs next, step after step: ANY list *)
+Fixpoint sys_run (shared : bool) (sched : list nat) (st : sys) : sys :=
+  match sched with
+  | [] => st
+  | i :: r => sys_run shared r (sys_step shared i st)
+  end.
+
+Definition start (spec : cfg * str * node) : walker :=
+  let '(k, b, src) := spec in Walker k b [TNode [] src] [] Running.
 
 (* ---------------------------------------------------------------- correspondence cases ------ *)
 Fixpoint node_eqb (a b : node) : bool :=
